@@ -1706,6 +1706,39 @@ impl<'tcx> Interp<'tcx> {
         }
     }
 
+    /// While a `Debug::fmt` body is read structurally: which callees stay opaque (their results are named symbols)?
+    /// Everything foreign (core::fmt) and every public inherent method (the getters whose results get printed).
+    /// Private helpers and methods of private helper traits emitted by the expansion are followed instead.
+    fn debug_opaque(&self, callee: DefId) -> bool {
+        if !callee.is_local() {
+            return true;
+        }
+        if let Some(impl_did) = self.tcx.impl_of_assoc(callee) {
+            let inherent = self.tcx.impl_opt_trait_ref(impl_did).is_none();
+            if inherent && self.tcx.visibility(callee).is_public() {
+                return true;
+            }
+            return false;
+        }
+        false
+    }
+
+    /// `m::_::<impl m::S>::f` (an inherent method written inside an anonymous const or a fn body) is `m::S::f`
+    fn canonical_callee(&self, callee: DefId, printed: String) -> String {
+        if !callee.is_local() || !(printed.contains("::_::") || printed.contains("<impl ")) {
+            return printed;
+        }
+        if let Some(impl_did) = self.tcx.impl_of_assoc(callee) {
+            if self.tcx.impl_opt_trait_ref(impl_did).is_none() {
+                let self_ty = self.tcx.type_of(impl_did).instantiate_identity().skip_norm_wip();
+                if let ty::Adt(def, _) = self_ty.kind() {
+                    return format!("{}::{}", self.tcx.def_path_str(def.did()), self.tcx.item_name(callee));
+                }
+            }
+        }
+        printed
+    }
+
     pub fn run(&mut self, init: State<'tcx>) {
         let mut work: Vec<State<'tcx>> = vec![init];
         while let Some(mut st) = work.pop() {
@@ -2204,7 +2237,7 @@ impl<'tcx> Interp<'tcx> {
                     ty::FnDef(did, gargs) => {
                         let r = Instance::try_resolve(self.tcx, self.env, *did, gargs).ok().flatten();
                         let name = match r {
-                            Some(i) => self.tcx.def_path_str_with_args(i.def_id(), i.args),
+                            Some(i) => self.canonical_callee(i.def_id(), self.tcx.def_path_str_with_args(i.def_id(), i.args)),
                             None => self.tcx.def_path_str_with_args(*did, gargs),
                         };
                         (name, r)
@@ -2228,7 +2261,7 @@ impl<'tcx> Interp<'tcx> {
                     if let InstanceKind::Item(cd) = ci.def {
                         if self.tcx.is_mir_available(cd)
                             && depth < MAX_DEPTH
-                            && !(self.opaque_depth0 && depth == 1)
+                            && !(self.opaque_depth0 && self.debug_opaque(cd))
                             && !self.policy_opaque(cd)
                             && self.tcx.intrinsic(cd).is_none()
                         {
@@ -2262,7 +2295,7 @@ impl<'tcx> Interp<'tcx> {
                             st.calls.push(obj(&[("n", n.to_string()), ("callee", esc(&callee_name)), ("args", arr(&rendered_args))]));
                             // results of the custom-type conversions (and of calls made by a Debug impl) are named
                             // symbols; any other call that could not be followed yields an unknown value
-                            let named = resolved.map(|ci| self.policy_opaque(ci.def_id())).unwrap_or(false) || (self.opaque_depth0 && depth == 1);
+                            let named = resolved.map(|ci| self.policy_opaque(ci.def_id())).unwrap_or(false) || self.opaque_depth0;
                             let rv = if named { self.materialize(st, dty, &format!("c{}", n), 0) } else { self.top_of(dty, 0) };
                             Self::write(st, dc, &dp, rv);
                             Self::goto(st, target);
